@@ -613,21 +613,36 @@ def gen_code_text(rng, refs):
     """a one-paragraph text with 1-2 code spans (single or double backticks) between / next to running text that has
     references of its own: -> [("plain", text) | ("code", content, ticks)]; the span contents hold references in
     documented spellings (to existing, hidden and absent things alike).  The joiners between running text and spans never
-    put `(` behind a `]` (that would be Markdown's own `[text](url)` syntax swallowing the span)"""
-    pieces = []
+    put `(` behind a `]` (that would be Markdown's own `[text](url)` syntax swallowing the span), and the words that are
+    not references hold at most one underscore at a word boundary (two would be Markdown's `_emphasis_`)"""
+    for _ in range(20):
+        pieces, loose = _gen_code_text(rng, refs)
+        if len(re.findall(r"(?<![^\W_])_|_(?![^\W_])", " ".join(loose))) < 2:
+            break
+    return pieces
+
+
+def _gen_code_text(rng, refs):
+    pieces, loose = [], []     # loose: the words / look-alikes of the running text that are not references
+
+    def running():
+        parts = gen_text(rng, refs)
+        loose.extend(p[1] for p in parts if p[0] != "ref")
+        return render_text(parts)
+
     n_code = rng.choice([1, 1, 2])
     if rng.random() < 0.8:
-        pieces.append(("plain", render_text(gen_text(rng, refs)) + rng.choice([" ", " in ", ", e.g. ", " - "])))
+        pieces.append(("plain", running() + rng.choice([" ", " in ", ", e.g. ", " - "])))
     for i in range(n_code):
         if i:
-            pieces.append(("plain", rng.choice([" and ", ", ", " / ", " or " + render_text(gen_text(rng, refs)) + " vs. "])))
+            pieces.append(("plain", rng.choice([" and ", ", ", " / ", None]) or (" or " + running() + " vs. ")))
         r = G.render_ref(rng.choice(refs)[0])
         pieces.append(("code", rng.choice(CODE_FORMS).replace("{r}", r), rng.choice(["`", "`", "``"])))
     if rng.random() < 0.7:
-        pieces.append(("plain", rng.choice([" ", " - ", ": ", ", see "]) + render_text(gen_text(rng, refs))))
+        pieces.append(("plain", rng.choice([" ", " - ", ": ", ", see "]) + running()))
     if pieces[0][0] == "plain":
         pieces[0] = ("plain", pieces[0][1].lstrip())
-    return [x for x in pieces if x[0] == "code" or x[1]]
+    return [x for x in pieces if x[0] == "code" or x[1]], loose
 
 
 def render_pieces(pieces):
